@@ -74,6 +74,11 @@ func (a *Application) registerTranslatorRoutes() {
 			path := pathProvider.GetAPIPath()
 			handler := a.translationHandler(trans)
 
+			// what that chain refuses is answered in the translator's own error format
+			if errorWriter, ok := trans.(translator.ErrorWriter); ok && a.securityAdapters != nil {
+				a.securityAdapters.SetRejectionWriter(path, errorWriter.WriteError)
+			}
+
 			// The messages route proxies client requests to backends, so it has to go through
 			// the same admission chain (rate limit, body size) as the other proxy routes.
 			a.routeRegistry.RegisterSecuredRoute(
